@@ -127,6 +127,9 @@ pub enum Edit {
     /// decode 32-byte Fp25519 elements, add the given error to the given lanes of the record at
     /// `record` (records are `lanes_per_record` elements wide), re-encode
     Fp25519Add { record: usize, lanes_per_record: usize, errors: Vec<(usize, [u8; 32])> },
+    /// decode the 32-byte Ristretto point at element `elem`, add g^`scalar` to it, re-encode (an
+    /// additive error on a group-valued message that keeps the encoding valid)
+    RistrettoAdd { elem: usize, scalar: [u8; 32] },
 }
 
 #[derive(Clone, Debug)]
@@ -245,6 +248,25 @@ pub fn apply_edit(e: &Edit, data: &mut Vec<u8>) {
                 data[off..off + 32].copy_from_slice(&out);
             }
         }
+        Edit::RistrettoAdd { elem, scalar } => {
+            use crate::ff::{Serializable, curve_points::RP25519, ec_prime_field::Fp25519};
+            let elems = (n / 32).max(1);
+            let off = (elem % elems) * 32;
+            if off + 32 > n {
+                data[0] ^= 1;
+                return;
+            }
+            let ga = |b: &[u8]| generic_array::GenericArray::<u8, typenum::U32>::from(<[u8; 32]>::try_from(b).unwrap());
+            match RP25519::deserialize(&ga(&data[off..off + 32])) {
+                Ok(p) => {
+                    let v = p + RP25519::from(Fp25519::deserialize_infallible(&ga(scalar)));
+                    let mut out = generic_array::GenericArray::<u8, typenum::U32>::default();
+                    v.serialize(&mut out);
+                    data[off..off + 32].copy_from_slice(&out);
+                }
+                Err(_) => data[off] ^= 1,
+            }
+        }
         Edit::AddLe { elem, stride, width, delta, modulus } => {
             let w = (*width).min(16).max(1);
             let stride = (*stride).max(w);
@@ -316,6 +338,8 @@ pub struct HybridCfg {
     pub assign: Vec<usize>,
     pub timeout: Duration,
     pub tamper: Option<Tamper>,
+    /// further edits applied in the same run (a deviating helper that also falsifies its own view)
+    pub more_tampers: Vec<Tamper>,
     /// stop as soon as a helper in this set (bitmask over helper indices) fails; 0b111 = any
     pub stop_on_error_of: u8,
 }
@@ -520,7 +544,10 @@ where
 }
 
 async fn run_hybrid_in<const S: usize>(cfg: &HybridCfg, rows: &[Row]) -> RunResult {
-    let icpt = Interceptor::new(cfg.tamper.clone());
+    let icpt = match &cfg.tamper {
+        Some(t) => Interceptor::new_multi(std::iter::once(t.clone()).chain(cfg.more_tampers.iter().cloned()).collect()),
+        None => Interceptor::new(None),
+    };
     let mut wc = TestWorldConfig::default();
     wc.seed = cfg.world_seed;
     wc.stream_interceptor = icpt.dynamic();
